@@ -17,15 +17,20 @@ Record c01_out := {
   c01_std : list (option comp * list comp);       (* std: component, components of std's remainder *)
   c01_has_root : bool; c01_is_abs : bool;
   c01_std_has_root : bool; c01_std_is_abs : bool;
-  c01_try_from : option comp
+  c01_try_from : option comp;
+  c01_flags : list (bool * bool);                 (* has_root / is_absolute asked of the iterator after every step *)
+  c01_std_flags : list (bool * bool)              (* std: has_root / is_absolute of the remainder path *)
 }.
+Definition root_first (cs : list comp) : bool := match cs with Root :: _ => true | _ => false end.
 Definition model_c01 (p : list byte) (sched : list bool) : c01_out :=
   {| c01_impl := map (fun x => (fst x, u_remaining (snd x))) (sched_run u_nextf u_nextb (u_init p) sched);
      c01_std := deq_run (ucomps p) sched;
      c01_has_root := u_has_root p; c01_is_abs := u_is_absolute p;
      c01_std_has_root := match ucomps p with Root :: _ => true | _ => false end;
      c01_std_is_abs := match ucomps p with Root :: _ => true | _ => false end;
-     c01_try_from := u_try_from p |}.
+     c01_try_from := u_try_from p;
+     c01_flags := map (fun x => (us_has_root (snd x), us_has_root (snd x))) (sched_run u_nextf u_nextb (u_init p) sched);
+     c01_std_flags := map (fun x => (root_first (snd x), root_first (snd x))) (deq_run (ucomps p) sched) |}.
 
 Fixpoint all2 {A B} (f : A -> B -> bool) (a : list A) (b : list B) : bool :=
   match a, b with
@@ -40,4 +45,6 @@ Definition check_c01 (p : list byte) (sched : list bool) (o : c01_out) : bool :=
   && all2 (fun i s => ocomp_eqb (fst i) (fst s) && list_eqb (snd i) (snd s)) (c01_std o) spec
   && Bool.eqb (c01_has_root o) root && Bool.eqb (c01_is_abs o) root
   && Bool.eqb (c01_std_has_root o) root && Bool.eqb (c01_std_is_abs o) root
-  && ocomp_eqb (c01_try_from o) (match ucomps p with [c] => Some c | _ => None end).
+  && ocomp_eqb (c01_try_from o) (match ucomps p with [c] => Some c | _ => None end)
+  && all2 (fun f s => Bool.eqb (fst f) (root_first (snd s)) && Bool.eqb (snd f) (root_first (snd s))) (c01_flags o) spec
+  && all2 (fun f s => Bool.eqb (fst f) (root_first (snd s)) && Bool.eqb (snd f) (root_first (snd s))) (c01_std_flags o) spec.
